@@ -66,7 +66,7 @@ func init() {
 					nf++
 					d := op.cond
 					ok1, m1 := everyDisjunctHas(d, []string{" <= ", "finalisedHeight(ctx)#0"})
-					ok2, m2 := everyDisjunctHas(d, []string{" >= ", "φ("}, []string{" >= "})
+					ok2, m2 := everyDisjunctHas(d, []string{" >= ", "φ("}, []string{" >= ", "maxFinalised"})
 					c.check(ok1, "guards", "setL1Head: candidate ≤ finalised height", p.Pos(posOf(in, in.Parent())), "only commits at or below the provider's finalised height can become the head", "a buffered commit can be chosen as L1 head without key ≤ finalisedHeight (the provider's value): "+m1)
 					c.check(ok2, "guards", "setL1Head: highest candidate wins", p.Pos(posOf(in, in.Parent())), "candidate replaces the current maximum only if its key is ≥", "the chosen head is not the highest finalised commit: "+m2)
 				case "delete":
